@@ -14,8 +14,8 @@ Tie to /repo, every run:
   K2 file level: a closed-world program generated for all targets without comments and with adversarial comments
      on every commentable construct; token streams (own tokenizer `ctok12`, cross-checked against the Lean fragment)
      must be equal after dropping comments and deprecation annotations; every deprecation literal decodes to a message
-     of the AST. Thorough tier: g++ -fsyntax-only / javac on the commented variant, g++ -E / javac as judges of the
-     lexing fragment itself.
+     of the AST. Compilers as judges: g++ -fsyntax-only / javac on the commented variant (corpus witnesses + 2 programs in
+     the quick tier, 40 in the thorough tier); g++ -E / javac as judges of the lexing fragment itself (every run).
   S  specification on the implementation's observation: `c12.spec.comment` / `c12.spec.deprecated` (Lean lexers run on
      the *implementation's* output between probe texts), and the token-stream equality of K2.
 """
@@ -494,7 +494,7 @@ def file_level(ctx, corpus):
         if c.get("kind") == "program":
             jobs.append({"files": {"main.djinni": c["bare"]}, "root": "main.djinni"})
             jobs.append({"files": {"main.djinni": c["commented"]}, "root": "main.djinni", "want": ["dep"]})
-            metas.append({"mode": "corpus", "bare": c["bare"], "commented": c["commented"]})
+            metas.append({"mode": "corpus", "bare": c["bare"], "commented": c["commented"], "judge": bool(c.get("judge"))})
     for i in range(n):
         r = random.Random(f"{ctx.seed}/c12/p/{i}")
         mode = "plain" if i % 4 == 0 else "adv"
@@ -599,7 +599,8 @@ def judge_programs(ctx, judged):
     """g++ -fsyntax-only on every generated C++ header, javac on all Java files of the commented variant"""
     import concurrent.futures as cf
     n = ctx.n(2, 40)
-    work = judged[:n]
+    # corpus programs marked for the compilers always, then the first n generated ones
+    work = [j for j in judged if j[0].get("judge")] + [j for j in judged if not j[0].get("judge")][:n]
     if not work:
         return
 
@@ -712,7 +713,7 @@ def run(ctx):
     ctx.coverage["rule"] = ("function level: distinct = (style, indented?, set of adversarial features in the text) resp. (builder, value kind, features); "
                             "file level: distinct = (mode, targets with deprecation literals, features of the comments); non-trivial = non-empty text / a program whose commented variant differs")
     ctx.assumptions += [
-        "rendered comment text and deprecation messages contain no '\\r' is NOT assumed for comments (the filter splits on it); for deprecation messages it is a hypothesis (IDL lexer rule '#' ~[\\r\\n]*, universal-newline file reading)",
+        "no assumption on the rendered comment text or the deprecation message: the theorems hold for every string (the comment filter splits at '\\r' and every other line boundary, string_literal escapes them)",
         "closed feature set of the file-level generator: the eight declarations of `DECLS` (enum, flags with none/all last, record of i32/string/list<i32>/enum, "
         "error domain with value parameters, named function, +cpp interface with static/const/throws methods, +java+objc+cppcli interface, namespaced record with optional field); "
         "default identifier styles; comments on every commentable construct",
@@ -775,6 +776,7 @@ def file_level_one(ctx, inp):
     saved = ctx.n
     try:
         ctx.n = lambda q, t: 0
-        file_level(ctx, [{"kind": "program", "bare": inp["bare"], "commented": inp["commented"]}])
+        _, judged = file_level(ctx, [{"kind": "program", "bare": inp["bare"], "commented": inp["commented"], "judge": True}])
+        judge_programs(ctx, judged)
     finally:
         ctx.n = saved
